@@ -171,7 +171,7 @@ let scene_cmd rules world scene0 =
 let ent_s (e : entity) = Printf.sprintf "%sv%s" (string_of_int (int_of_n e.e_index)) (string_of_int (int_of_n e.e_gen))
 
 let graph_cmd ops qs =
-  let ops = List.filter (fun o -> o <> "" && o <> "-") (String.split_on_char ';' ops) in
+  let ops = List.filter (fun o -> o <> "" && o <> "-" && o <> "q") (String.split_on_char ';' ops) in
   let ops = List.map (fun o -> match String.split_on_char ':' o with
     | ["a"; k; s; t] -> OpAdd (n_of_hex k, n_of_hex s, n_of_hex t)
     | ["r"; k; s; t] -> OpRemove (n_of_hex k, n_of_hex s, n_of_hex t)
